@@ -10,6 +10,7 @@ or several calls*.  Rules are predicates over the sequence of calls (with the id
 values passed) and the value returned; an obligation states that no path violating the rule has a
 satisfiable path condition.
 """
+import os
 import re
 
 from . import mir
@@ -72,6 +73,7 @@ def kind_of(callee):
 
 class Run:
     """One symbolic execution of a function under a configuration."""
+    seq = 0
 
     def __init__(self, funcs, inline, extra_models=None):
         self.log = []
@@ -96,6 +98,10 @@ class Run:
             r"^Result::<.*>::is_ok$": self.m_is_ok,
         }, **(extra_models or {})))
         self.ex.try_info = {}
+        # names of fresh symbols must not collide between runs whose declarations end up in one obligation
+        Run.seq += 1
+        import itertools
+        self.ex.counter = itertools.count(Run.seq * 100000)
         self.ex.max_steps = 600000
         self.ex.max_depth = 8
         self.ex.default_model = self.default_model
@@ -298,9 +304,10 @@ def _gou_name(funcs):
     return hits[0]
 
 
-def _cache_value(f, ws, ck):
-    """The `&Cache` argument: fields are identified by the types the body projects out of `*_1`."""
-    body = "\n".join("\n".join(st) + "\n" + t for (st, t) in f.blocks.values())
+def _cache_value(f, ws, ck, also=()):
+    """The `&Cache` argument: fields are identified by the types the bodies project out of `*_1`
+    (`also`: other methods taking `&self` that are inlined into the function explored)."""
+    body = "\n".join("\n".join(st) + "\n" + t for g in (f,) + tuple(also) for (st, t) in g.blocks.values())
     fields = {}
     for m in re.finditer(r"\(\(\*_1\)\.(\d+): ", body):
         i = int(m.group(1))
@@ -338,9 +345,10 @@ def _cache_value(f, ws, ck):
 def explore_gou(funcs, ws, ck):
     name = _gou_name(funcs)
     f = funcs[name]
-    run = Run(funcs, inline=lambda n: n == "promote" or n.endswith("::promote"))
+    run = Run(funcs, inline=lambda n: n == "promote" or n.endswith("::promote") or n.endswith("Cache::finalize_tempfile"))
     run.ex.decls.append(("AUTOSYNC", "Bool"))
-    cache, roles = _cache_value(f, ws, ck)
+    also = [funcs[k] for k in funcs if re.search(r"^stack::<impl .*>::finalize_tempfile$", k)]
+    cache, roles = _cache_value(f, ws, ck, also)
     args = [cache, ("opaque", "KEY", "Key"), ("opaque", "JUDGE", "FnOnce"), ("opaque", "POPULATE", "FnOnce")]
     res = run.ex.run(name, args)
     return run, run.paths(res), roles
@@ -402,6 +410,8 @@ def analyse(path, ws, ck):
         elif o["label"] == "err":
             if ok or ret != o["id"]:
                 bad.append(("errors", "a failed read-side lookup is not reported"))
+                if ck:
+                    bad.append(("checker", "an error of the read-only stack (which compares its copies) does not reach the caller"))
             return bad
     if hit_w is None and not rget and kinds:
         bad.append(("order", "the read-only caches are not consulted after a write-cache miss"))
@@ -553,6 +563,27 @@ def analyse(path, ws, ck):
         if not tf or not pops or ret != evs[tf[-1]][1]["id"]:
             bad.append(("actions", "without a write cache a miss is not served from a throw-away file"))
 
+    # ---- read-only handles (C19): what is returned comes from a lookup or from a read-only open ---------
+    if ret is not None:
+        src_ok = set(o["id"] for (e, o) in evs if e["kind"] in ("W_GET", "R_GET", "OPEN") and o["label"] in ("ok", "ok-some"))
+        if not ws:
+            src_ok |= set(o["id"] for (e, o) in evs if e["kind"] == "TEMPFILE" and o["label"] == "ok")
+        if ret not in src_ok:
+            bad.append(("readonly-handle", "the handle returned was not obtained by a lookup or a read-only open"))
+    for i in _all(evs, "COPY"):
+        a = list(_flat(evs[i][0]["args"]))
+        if a:
+            fid = a[0]
+            lt = -1
+            for j in range(i):
+                if evs[j][0]["kind"] in ("JUDGE", "CHECK", "POPULATE", "COPY") and fid in list(_flat(evs[j][0]["args"])):
+                    lt = j
+            if lt >= 0 and not any(lt < s_ < i and fid in list(_flat(sa)) for (s_, sa) in seeks):
+                bad.append(("rewind", "a promoted copy is taken from a handle that was consumed and not rewound"))
+    # ---- flush (C03): every finalization follows the cache's auto_sync setting ------------------------------
+    for (e, o) in evs:
+        if e["kind"] == "FINALIZE" and e["callee"] == "finalize_tempfile" and len(e["args"]) >= 2 and e["args"][1] != "AUTOSYNC":
+            bad.append(("flush", "a temporary file is finalized with sync=%s instead of the cache's auto_sync setting" % (e["args"][1],)))
     # ---- rewind (C19) ---------------------------------------------------------------------------------
     if ret is not None and touched_after_last_rewind(ret):
         bad.append(("rewind", "the returned handle was consumed by the judge, the checker or populate and not rewound"))
@@ -605,7 +636,9 @@ RULES = {
     "checker": ("C14", "with a checker: a primary hit is compared with the read-only copy, an accepted hit with a freshly populated value (unless NotFound); checker errors reach the caller"),
     "checker-off": ("C14", "without a checker no comparison is made and later copies are not consulted after a primary hit"),
     "errors": ("C18+C03", "every failing callee's own error is returned (only the documented NotFound and the re-lookup after put are absorbed)"),
-    "rewind": ("C19", "handles returned or compared are rewound after every judge / checker / populate that consumed them"),
+    "rewind": ("C19+C01", "handles returned, compared or copied from are rewound after every judge / checker / populate that consumed them"),
+    "readonly-handle": ("C19", "the handle returned comes from a cache lookup or a read-only open of the published file, never from the writable temporary file"),
+    "flush": ("C03", "every temporary file is finalized with the cache's auto_sync setting (promotion included)"),
     "temp": ("C18", "temporary files are finalized or dropped on every path, temporary paths are only dereferenced and dropped"),
 }
 
@@ -732,6 +765,137 @@ def _first_reproduced(results):
     return dict(reproduced=False, detail="no native scenario applies", signature={})
 
 
+# ---- native conformance sweep of the stacked cache against a reference model of C13 / C14 / C19 ----------------
+VALS = {None: None, 50: "value-50", 60: "value-60"}
+
+
+def _expected(w, rs, checker, op, action, pop, writer):
+    """Reference outcome: dict(result, handle content or None, w_after) for one configuration (quiet, no peers)."""
+    copies = ([VALS[w]] if (writer and w is not None) else []) + [VALS[r] for r in rs if r is not None]
+    first = copies[0] if copies else None
+    primary = writer and w is not None
+    w_after = VALS[w] if writer else None
+    if checker and len(set(copies)) > 1:
+        return dict(result="err", handle=None, w_after=w_after)
+    if op == "get":
+        return dict(result="ok", handle=first, w_after=w_after)
+    if first is not None and action in ("accept", "promote"):
+        if checker:
+            if pop == "!error" or (pop == "value-70" and first != "value-70"):
+                return dict(result="err", handle=None, w_after=w_after)
+        if action == "promote" and writer and not primary:
+            w_after = first
+        return dict(result="ok", handle=first, w_after=w_after)
+    # miss or Replace
+    if pop != "value-70":
+        return dict(result="err", handle=None, w_after=w_after)
+    return dict(result="ok", handle="value-70", w_after=("value-70" if writer else None))
+
+
+def native_stack_sweep(scratch, want):
+    """Run the real library over the configuration matrix and compare with the reference model.
+    `want`: categories of deviation to report ('value', 'checker', 'handle', 'temp', 'readonly')."""
+    import itertools
+    import shutil
+    nat, sc = _native(scratch)
+    devs = {"debug": [], "release": []}
+    for profile in ("debug", "release"):
+        for writer in (True, False):
+            for nread in (0, 1, 2):
+                for w in ((None, 50, 60) if writer else (None,)):
+                    for rs in itertools.product((None, 50, 60), repeat=nread):
+                        for checker in (False, True):
+                            for (op, action) in (("get", None), ("gou", "accept"), ("gou", "promote"), ("gou", "replace"), ("ensure", "promote")):
+                                for pop in (("value-70", "!notfound", "!error") if op != "get" else (None,)):
+                                    if len(devs[profile]) >= 6:
+                                        continue
+                                    root = nat.sandbox()
+                                    try:
+                                        wd = os.path.join(root, "w")
+                                        os.makedirs(wd)
+                                        if writer and w is not None:
+                                            _mkfile(os.path.join(wd, "ka"), VALS[w])
+                                        rdirs = []
+                                        for i, r in enumerate(rs):
+                                            rd = os.path.join(root, "r%d" % i)
+                                            os.makedirs(rd)
+                                            rdirs.append(rd)
+                                            if r is not None:
+                                                _mkfile(os.path.join(rd, "ka"), VALS[r])
+                                        args = ["stack", ("plain:%s:100" % wd) if writer else "none", ",".join("plain:%s" % d for d in rdirs) or "-",
+                                                "bytes" if checker else "none", 1, op, "ka", 1, 2]
+                                        if op == "gou":
+                                            args += [action, pop]
+                                        elif op == "ensure":
+                                            args += [pop]
+                                        before_r = {d: _snap(d) for d in rdirs}
+                                        out = sc.parse_out(nat.run(args, profile=profile)["out"])
+                                        exp = _expected(w, rs, checker, op, action, pop, writer)
+                                        cfg = "writer=%s w=%s readers=%s checker=%s op=%s/%s populate=%s" % (writer, w, list(rs), checker, op, action, pop)
+                                        got_w = _read(os.path.join(wd, "ka")) if writer else None
+                                        h = out["handle"] or {}
+                                        cat = None
+                                        if out["panic"]:
+                                            cat, msg = "value", "panic: %s" % out["panic"][:60]
+                                        elif out["result"] != exp["result"]:
+                                            cat = "checker" if checker and ("err" in (out["result"], exp["result"])) and len(set(x for x in [VALS[w] if writer else None] + [VALS[r] for r in rs] if x)) > 1 or (checker and pop == "value-70") else "value"
+                                            msg = "result %s, expected %s" % (out["result"], exp["result"])
+                                        elif exp["result"] == "ok" and exp["handle"] is not None and h.get("content") != exp["handle"]:
+                                            cat = "handle" if h.get("offset") not in (None, "0") else "value"
+                                            msg = "returned %r (offset %s), expected %r" % (h.get("content"), h.get("offset"), exp["handle"])
+                                        elif exp["result"] == "ok" and exp["handle"] is not None and (h.get("offset") != "0" or h.get("access") != "rdonly") and not (not writer and exp["handle"] == "value-70"):
+                                            cat, msg = "handle", "returned handle access=%s offset=%s" % (h.get("access"), h.get("offset"))
+                                        elif got_w != exp["w_after"]:
+                                            cat, msg = "value", "write cache holds %r afterwards, expected %r" % (got_w, exp["w_after"])
+                                        elif any(_snap(d) != before_r[d] for d in rdirs):
+                                            cat, msg = "readonly", "a read-only cache directory changed"
+                                        elif os.path.isdir(os.path.join(wd, ".kismet_temp")) and os.listdir(os.path.join(wd, ".kismet_temp")):
+                                            cat, msg = "temp", "temporary file left behind: %r" % os.listdir(os.path.join(wd, ".kismet_temp"))[:2]
+                                        if cat is not None and cat in want:
+                                            devs[profile].append("%s: %s" % (cfg, msg))
+                                    finally:
+                                        shutil.rmtree(root, ignore_errors=True)
+    both = devs["debug"] and devs["release"]
+    return dict(reproduced=bool(both), detail=("debug: " + devs["debug"][0] + "; release: " + devs["release"][0]) if both else "the library agrees with the reference model on the whole configuration matrix",
+                signature=dict(op="stack-sweep", what="deviation from the reference model of the stacked cache: " + ",".join(sorted(want))),
+                deviations={k: v[:6] for k, v in devs.items()})
+
+
+def _with_sweep(first, want):
+    def run(scratch):
+        r = first(scratch) if first else None
+        if r is not None and r.get("reproduced"):
+            return r
+        r2 = native_stack_sweep(scratch, want)
+        if r2["reproduced"] or r is None:
+            return r2
+        r["detail"] = (r.get("detail", "") + " | sweep: " + r2["detail"])[:700]
+        return r
+    return run
+
+
+def _mkfile(path, text):
+    with open(path, "w") as f:
+        f.write(text)
+    os.chmod(path, 0o444)
+    os.utime(path, ns=(900 * 10**9, 1000 * 10**9))
+
+
+def _read(path):
+    try:
+        return open(path).read()
+    except OSError:
+        return None
+
+
+def _snap(d):
+    out = {}
+    for n in sorted(os.listdir(d)):
+        st = os.lstat(os.path.join(d, n))
+        out[n] = (st.st_mode, st.st_size, st.st_mtime_ns, st.st_nlink)
+    return out
+
+
 def native_actions(scratch):
     """Replace on a read-only hit / a miss, with another participant publishing the key while populate runs."""
     nat, sc = _native(scratch)
@@ -834,6 +998,8 @@ def stack_ops_glue(funcs, text):
                     if o["label"] == "err":
                         if ok or ret != o["id"]:
                             bad("errors", p["pc"], "get: %s failed and the error is not returned" % e["kind"])
+                            if ck and e["kind"] in ("R_GET", "CHECK"):
+                                bad("checker", p["pc"], "get: an error of the comparison with the read-only copies does not reach the caller")
                         break
                 if not ok:
                     continue
@@ -1001,6 +1167,24 @@ def native_ops_rewind(scratch):
     return _first_reproduced([sc.o_offset_zero(mk_scen(0, w=50, r=50, checker=1), nat, ""), sc.o_offset_zero(mk_scen(0, w=None, r=50, checker=1), nat, "")])
 
 
+def native_ops_errors(scratch):
+    """set / put of a file that cannot be opened must fail with an error (not a panic), and get must report a failing level."""
+    import shutil
+    nat, sc = _native(scratch)
+    bad = []
+    for profile in ("debug", "release"):
+        for op in ("set", "put"):
+            root = nat.sandbox()
+            try:
+                os.makedirs(os.path.join(root, "w"))
+                out = sc.parse_out(nat.run(["stack", "plain:%s:100" % os.path.join(root, "w"), "-", "none", 1, op, "ka", 1, 2, os.path.join(root, "missing")], profile=profile)["out"])
+                if out["result"] != "err" or out["panic"]:
+                    bad.append((profile, "%s of a missing file: result=%s panic=%s" % (op, out["result"], (out["panic"] or "")[:60])))
+            finally:
+                shutil.rmtree(root, ignore_errors=True)
+    return sc.verdict(bad, mk_scen(4), "a failing open is not reported as an error", "a failing open is reported natively")
+
+
 def native_ops_flush(scratch):
     nat, sc = _native(scratch)
     return _first_reproduced([sc.o_flush_failed_published(mk_scen(6, w=None, r=None), nat, ""), sc.o_flush_failed_published(mk_scen(7, w=None, r=None), nat, "")])
@@ -1131,8 +1315,13 @@ def readonly_glue(funcs, text):
     return obs, dict(models=["every callee uninterpreted; slice iteration unrolled up to %d levels" % MAX_LEVELS], inlined=fnames)
 
 
-NATIVE_OPS = {"checker": native_ops_checker, "rewind": native_ops_rewind, "flush": native_ops_flush}
+NATIVE_OPS = {}
 
-NATIVE = {"actions": native_actions, "ensure": native_actions, "checker": native_checker, "checker-off": None, "rewind": native_rewind,
-          "errors": native_errors, "temp": native_temp, "order": native_actions, "classify": native_actions,
+NATIVE = {"actions": _with_sweep(native_actions, {"value"}), "ensure": _with_sweep(native_actions, {"value"}), "checker": _with_sweep(native_checker, {"checker"}),
+          "checker-off": _with_sweep(None, {"checker", "value"}), "rewind": _with_sweep(native_rewind, {"handle"}),
+          "errors": _with_sweep(native_errors, {"value", "checker"}), "temp": _with_sweep(native_temp, {"temp"}), "readonly-handle": _with_sweep(native_rewind, {"handle"}),
+          "flush": native_finalize_errors, "order": _with_sweep(native_actions, {"value"}), "classify": _with_sweep(native_actions, {"value"}),
           "finalize_errors": native_finalize_errors, "finalize_sync": native_finalize_errors, "finalize_mode": None}
+
+NATIVE_OPS.update({"checker": _with_sweep(native_ops_checker, {"checker"}), "rewind": _with_sweep(native_ops_rewind, {"handle"}), "flush": native_ops_flush,
+              "order": _with_sweep(None, {"value"}), "checker-off": _with_sweep(None, {"checker", "value"}), "errors": native_ops_errors})
